@@ -34,7 +34,7 @@ static const char* SEED[4] = {
 };
 static const char REPL[] = ">A-. \n\r\xC3*1/:cXJ";
 #define NREPL 16
-#define NSPECIAL 10
+#define NSPECIAL 28      /* 10 oversized shapes + 6 lengths around the 512-byte buffer steps x 3 formats */
 
 struct mut { int kind; int pos; int arg; };      /* 0 none, 1 truncate at pos, 2 delete line, 3 duplicate line, 4 swap line with next, 5 replace byte pos by REPL[arg] */
 
@@ -291,7 +291,7 @@ static void build_input(uint64_t id, int tier, char* desc, size_t dn)
                                         o += (size_t)sprintf(BUF + o, "%s\n", i % 1000 == 0 ? ">x" : "AC");
                                 }
                                 break;
-                        default:                /* MSF with 600 names */
+                        case 9:                 /* MSF with 600 names */
                                 o += (size_t)sprintf(BUF + o, "!!NA_MULTIPLE_ALIGNMENT 1.0\n\n x.msf  MSF: 4  Type: N  Check: 1  ..\n\n");
                                 for(i = 0; i < 600; i++){
                                         o += (size_t)sprintf(BUF + o, " Name: n%d  Len: 4  Check: 1  Weight: 1.00\n", i);
@@ -301,6 +301,31 @@ static void build_input(uint64_t id, int tier, char* desc, size_t dn)
                                         o += (size_t)sprintf(BUF + o, "n%d  AC%sT\n", i, (i % 2) ? "." : "G");
                                 }
                                 break;
+                        default: {              /* sequences whose residue count sits on / next to the 512-byte growth steps of the sequence buffers */
+                                static const int BL[6] = {511, 512, 513, 1024, 1025, 1536};
+                                int q = k - 10, len = BL[q % 6], fmt = q / 6, b;
+                                static char s1[2048], s2[2048];
+                                for(i = 0; i < len; i++){
+                                        s1[i] = "ACGT"[(i * 7 + i / 5) % 4];
+                                        s2[i] = "ACGT"[(i * 7 + i / 5 + (i % 97 == 3)) % 4];
+                                }
+                                s1[len] = 0;
+                                s2[len - 3] = 0;        /* second sequence 3 residues shorter */
+                                if(fmt == 0){
+                                        o += (size_t)sprintf(BUF + o, ">a\n%s\n>b\n%s\n", s1, s2);
+                                }else if(fmt == 1){
+                                        o += (size_t)sprintf(BUF + o, "CLUSTAL W (1.83) multiple sequence alignment\n\n");
+                                        for(b = 0; b < len; b += 60){
+                                                o += (size_t)sprintf(BUF + o, "a    %.60s\nb    %.60s%s\n\n", s1 + b, b < len - 3 ? s2 + b : "", (b + 60 >= len) ? "---" : "");
+                                        }
+                                }else{
+                                        o += (size_t)sprintf(BUF + o, "!!NA_MULTIPLE_ALIGNMENT 1.0\n\n x.msf  MSF: %d  Type: N  Check: 1  ..\n\n Name: a  Len: %d  Check: 1  Weight: 1.00\n Name: b  Len: %d  Check: 2  Weight: 1.00\n\n//\n\n", len, len, len);
+                                        for(b = 0; b < len; b += 60){
+                                                o += (size_t)sprintf(BUF + o, "a    %.60s\nb    %.60s%s\n\n", s1 + b, b < len - 3 ? s2 + b : "", (b + 60 >= len) ? "..." : "");
+                                        }
+                                }
+                                break;
+                        }
                         }
                         BUFN = o;
                         if(desc){
